@@ -7,6 +7,8 @@ Nested/SpanIsText and the position clauses of Trace_Tokens.tla on every recorded
 """
 from __future__ import annotations
 
+import os
+
 import random
 
 from . import tracecheck as tc
@@ -54,7 +56,7 @@ def check(tier: str, pid: str = "C17", is_mine=mine) -> int:
     chk.assumptions += ["sources are over the model alphabet (ASCII + the placeholder table of spec/concrete.json)",
                         "TLC, Json/IOUtils modules, CPython"]
     lines = sources(chk, tier)
-    out = SCRATCH / f"{pid}-traces"
+    out = SCRATCH / f"{pid}-traces-{os.getpid()}"
     import shutil
     shutil.rmtree(out, ignore_errors=True)
     shards = tc.record_sources(lines, out)
